@@ -87,6 +87,10 @@ def get_fft_parameters(fft_grid, input_grid):
         raise ValueError('The input grid must be regular to reconstruct an fft grid.')
     if not fft_grid.is_regular:
         raise ValueError('The fft grid is not regular and therefore cannot be an fft grid.')
+    if not fft_grid.is_('cartesian'):
+        raise ValueError('The fft grid is not Cartesian and therefore cannot be an fft grid.')
+    if fft_grid.ndim != input_grid.ndim:
+        raise ValueError('The fft grid has a different number of dimensions than the input grid.')
 
     q = (2 * np.pi / (input_grid.delta * input_grid.dims)) / fft_grid.delta
 
